@@ -45,7 +45,7 @@ def run(sid):
         if not only_target:
             meta["detected_by"] = sorted(p for p, r in meta["checks"].items() if r["exit"] == 1)
         json.dump(meta, open(sd + "/meta.json", "w"), indent=1)
-        print(sid, "detected_by", meta["detected_by"], flush=True)
+        print(sid, "detected_by", meta.get("detected_by"), {p: r["exit"] for p, r in meta["checks"].items()}, flush=True)
     finally:
         shutil.rmtree(d, ignore_errors=True)
 
